@@ -382,12 +382,16 @@ package internal
 //@ spec func allRefsNonNil(refs ResponseRefs) bool = forall i int :: 0 <= i && i < len(refs) ==> refs[i] != nil
 
 //@ iface ResponseCache.GetRefs(c, key)
+//@   property C10
 //@   pure
-//@   ensures result1 != nil ==> len(result0) == 0
-//@   ensures result1 == nil ==> allRefsNonNil(result0) && (len(result0) > 0 ==> fresh(result0))
+//@   ensures result1 != nil ==> len(result0) == 0                     # name: no-refs-on-error
+//@   ensures result1 == nil ==> allRefsNonNil(result0)                # name: refs-non-nil
+//@   ensures upstreamCalls == old(upstreamCalls)
 
 //@ iface ResponseCache.Get(c, key, req)
+//@   property C10
 //@   pure
+//@   ensures upstreamCalls == old(upstreamCalls)
 //@   ensures (result0 != nil) != (result1 != nil)
 //@   ensures result0 != nil ==> result0.Data != nil && result0.Data.Header != nil && fresh(result0) && fresh(result0.Data) && fresh(result0.Data.Header)
 
@@ -397,13 +401,52 @@ package internal
 //@   ensures allRefsNonNil(entries)
 //@   ensures result1 ==> 0 <= result0 && result0 < len(entries)
 
+// ---- C06: what may reach the store -------------------------------------------------------------
+//@ spec func statusUnderstood(c int) bool = c == 200 || c == 203 || c == 301 || c == 304 || c == 404 || c == 405 || c == 410 || c == 414 || c == 501 || c == 308
+//@ spec func storableStatus(status int) bool = status >= 200 && status <= 599 && status != 206 && status != 304
+// response side of storability (status, no-store, must-understand, a freshness indicator); hs: directive view of the response
+//@ spec func storableRespA(status int, expS string, hs Arr[string, bool]) bool = !hs["no-store"] && storableStatus(status) && (hs["must-understand"] ==> statusUnderstood(status)) && (hs["max-age"] || expS != "" || hs["public"] || heurStatus(status))
+//@ spec func storableResp(resp *http.Response) bool = storableRespA(resp.StatusCode, hget(resp.Header, "Expires"), dirsHas(ccText(resp.Header)))
+// request side: a plain GET (no Range) without no-store
+//@ spec func storableReq(req *http.Request) bool = req.Method == "GET" && hget(req.Header, "Range") == "" && !dirsHas(ccText(req.Header))["no-store"]
+
 //@ iface CacheabilityEvaluator.CanStoreResponse(e, resp, reqCC, resCC)
+//@   property C06
 //@   pure
 //@   requires resp != nil
+//@   ensures result && resp.StatusCode != 304 ==> !has(reqCC, "no-store") && storableRespA(resp.StatusCode, hget(resp.Header, "Expires"), hasArr(resCC))     # name: only-storable
+
+//@ func canStoreResponse
+//@   property C06
+//@   pure
+//@   requires resp != nil
+//@   ensures result && resp.StatusCode != 304 ==> !has(reqCC, "no-store") && storableRespA(resp.StatusCode, hget(resp.Header, "Expires"), hasArr(resCC))     # name: only-storable
+//@ func isStatusUnderstood
+//@   property C06
+//@   pure
+//@   ensures result == statusUnderstood(code)             # name: exact
+
+// lastSetOK: the last ResponseCache.Set of this exchange succeeded (the index may be written only then)
+//@ ghost var lastSetOK bool
+//@ iface ResponseCache.Set(c, key, entry)
+//@   property C06
+//@   requires entry != nil && entry.Data != nil                                     # name: entry-well-formed
+//@   requires storableStatus(entry.Data.StatusCode)                                 # name: status-storable
+//@   assigns storeWrites, lastSetOK, entry.Data.Body
+//@   ensures lastSetOK == (result == nil)                                           # ghost-update
+//@ iface ResponseCache.SetRefs(c, key, refs)
+//@   property C06
+//@   requires lastSetOK                                                             # name: entry-was-stored
+//@   assigns storeWrites
+//@ iface ResponseCache.Delete(c, key)
+//@   assigns storeWrites
 
 //@ iface ResponseStorer.StoreResponse(s, req, resp, urlKey, refs, reqTime, respTime, refIndex)
-//@   requires req != nil && resp != nil && resp.Header != nil
-//@   assigns storeWrites, map(resp.Header), elems(refs), now
+//@   property C06
+//@   requires req != nil && resp != nil && resp.Header != nil                       # name: well-formed
+//@   requires storableReq(req)                                                      # name: request-storable
+//@   requires storableResp(resp)                                                    # name: response-storable
+//@   assigns storeWrites, lastSetOK, map(resp.Header), resp.Body, elems(refs), now
 //@   ensures resp.Header != nil
 
 //@ iface CacheInvalidator.InvalidateCache(ci, reqURL, respHeader, refs, key)
@@ -459,11 +502,13 @@ package internal
 //@   loop 0 invariant forall j int :: 0 <= j && j <= rangeindex && sies[j] != nil && sieValidI(sies[j]) ==> !sieWellWithin(fAge(freshness, now), freshness.UsefulLife, sieDurI(sies[j]))
 
 //@ iface ValidationResponseHandler.HandleValidationResponse(h, ctx, req, resp, err)
-//@   property C02 C13 C10
+//@   property C02 C13 C10 C06
 //@   requires req != nil && req.URL != nil && ctx.Stored != nil && ctx.Stored.Data != nil && ctx.Stored.Data.Header != nil
 //@   requires ctx.Freshness != nil && ctx.Freshness.Age != nil
 //@   requires (resp != nil && resp.Header != nil && err == nil) || (resp == nil && err != nil)
 //@   requires resp == nil || (resp != ctx.Stored.Data && resp.Header != ctx.Stored.Data.Header)
+//@   requires req.Method == "GET" && hget(req.Header, "Range") == ""                                # name: plain-get
+//@   requires hasArr(ctx.CCReq) == dirsHas(ccText(req.Header))                                       # name: request-directives-are-the-requests
 //@   let ts = old(ccText(ctx.Stored.Data.Header))
 //@   let hs = dirsHas(ts)
 //@   let vs = dirsVal(ts)
@@ -486,6 +531,13 @@ package internal
 //@   implements ValidationResponseHandler.HandleValidationResponse
 //@   requires r != nil && r.l != nil && r.clock != nil && r.ci != nil && r.ce != nil && r.siep != nil && r.rs != nil
 
+//@ func hopByHopHeaders
+//@   property C05 C08
+//@   nosafety
+//@   pure
+//@   fresh
+//@   ensures result != nil                                   # name: non-nil
+
 //@ func updateStoredHeaders
 //@   property C08
 //@   requires storedResp != nil && storedResp.Header != nil && resp != nil
@@ -495,3 +547,96 @@ package internal
 //@   trusted
 //@   pure
 //@   ensures result != nil
+
+// ---- the response cache over a backend (C10: arbitrary bytes, failing operations) -------------
+//@ func newCacheError
+//@   pure
+//@   fresh
+//@   ensures result != nil
+
+//@ func ParseResponse
+//@   property C10 C05
+//@   pure
+//@   ensures (resp != nil) != (err != nil)                                                            # name: result-shape
+//@   ensures resp != nil ==> resp.Data != nil && resp.Data.Header != nil && fresh(resp) && fresh(resp.Data) && fresh(resp.Data.Header)   # name: decoded-shape
+
+//@ func (*responseCache).Get
+//@   implements ResponseCache.Get
+//@   requires r != nil && r.cache != nil
+//@ func (*responseCache).GetRefs
+//@   implements ResponseCache.GetRefs
+//@   requires r != nil && r.cache != nil
+//@   loop 0 invariant -1 <= rangeindex && rangeindex < len(refs) && (forall j int :: 0 <= j && j <= rangeindex ==> refs[j] != nil)
+
+// ---- variant matching (C04, C10) -----------------------------------------------------------
+//@ iface HeaderValueNormalizer.NormalizeHeaderValue(n, field, value)
+//@   pure
+//@   ensures result == normValue(field, value)
+// the cache's documented normalisation of a selecting header value (taken as the definition of equivalence)
+//@ spec func normValue(field string, value string) string
+
+// Comparator handed to slices.SortFunc, which calls it only on elements of the (non-nil) refs.
+//@ func (*varyMatcher).VaryHeadersMatch$1
+//@   property C10
+//@   pure
+//@   requires a != nil && b != nil
+
+//@ func (*varyMatcher).varyHeadersMatchOne
+//@   property C04 C10
+//@   pure
+//@   requires vm != nil && vm.hvn != nil && entry != nil
+//@   ensures result ==> entry.Vary != "*"                                 # name: star-never-matches   props: C04
+
+//@ func (*varyMatcher).VaryHeadersMatch
+//@   implements VaryMatcher.VaryHeadersMatch
+//@   property C04 C10
+//@   requires vm != nil && vm.hvn != nil
+//@   loop 0 invariant -1 <= rangeindex && rangeindex < len(entries) && allRefsNonNil(entries)
+
+//@ iface VaryHeaderNormalizer.NormalizeVaryHeader(n, vary, reqHeader)
+//@   pure
+//@   ensures result != nil
+//@ iface VaryKeyer.VaryKey(k, urlKey, varyHeaders)
+//@   pure
+//@ func removeHopByHopHeaders
+//@   property C05 C06
+//@   nosafety
+//@   requires resp != nil && resp.Header != nil
+//@   assigns map(resp.Header)
+
+//@ func (*responseStorer).StoreResponse
+//@   implements ResponseStorer.StoreResponse
+//@   property C06 C10
+//@   requires r != nil && r.cache != nil && r.vhn != nil && r.vk != nil
+
+//@ extern maps.Collect(seq)
+//@   pure
+//@   fresh
+//@   ensures result != nil
+//@ extern slices.Grow(s, n)
+//@   pure
+//@   ensures len(result) == len(s) && cap(result) >= len(s) + n && (forall i int :: 0 <= i && i < len(s) ==> result[i] == s[i])
+//@   ensures sameArray(result, s) || fresh(result)
+
+// writes the metadata line to the writer it is given and nothing else
+//@ func (*Response).WriteTo
+//@   trusted
+//@   pure
+//@ func (Response).MarshalBinary
+//@   property C06 C05
+//@   nosafety
+//@   requires r.Data != nil
+//@   assigns r.Data.Body
+//@   ensures result1 != nil ==> len(result0) == 0                    # name: no-bytes-on-error
+//@ func (*responseCache).Set
+//@   implements ResponseCache.Set
+//@   property C06 C10
+//@   requires r != nil && r.cache != nil
+//@ func (*responseCache).SetRefs
+//@   implements ResponseCache.SetRefs
+//@   property C06 C10
+//@   requires r != nil && r.cache != nil
+//@ func (*responseCache).Delete
+//@   implements ResponseCache.Delete
+//@   property C07 C10
+//@   requires r != nil && r.cache != nil
